@@ -17,12 +17,26 @@ TYPES = [(32e9, 50e9), (64e9, 75e9), (16e9, 25e9), (60e9, 62.5e9)]
 
 
 # ---- part 1 -------------------------------------------------------------------------------------------------------------
-def carrier_lists(deep=False):
+def carrier_lists(deep=False, deeper=False):
     """(name, list of (f, baud, slot, extra), valid?)"""
     out = []
     base = 193.0e12
+    if deeper:
+        # thorough tier: all typings (3 types) of 5 touching channels and a one-step overlap at every neighbour position
+        for types in itertools.product(range(3), repeat=5):
+            for k in (None, 0, 1, 2, 3):
+                if k is not None and sum(types) % 3 != k % 3:      # a third of the typings per overlap position
+                    continue
+                edge, chans = base, []
+                for i, t in enumerate(types):
+                    b, s = TYPES[t]
+                    if k is not None and i == k + 1:
+                        edge -= 12.5e9
+                    chans.append((edge + s / 2, b, s))
+                    edge += s
+                out.append((('touching5_' if k is None else f'overlap5_{k}') + ''.join(map(str, types)), chans, k is None))
     if deep:
-        # thorough tier: all typings of 4 touching channels and every one-step overlap between neighbours of 4 channels
+        # all typings of 4 touching channels and every one-step overlap between neighbours of 4 channels
         for types in itertools.product(range(4), repeat=4):
             edge, chans = base, []
             for t in types:
@@ -465,21 +479,21 @@ def run_case(case):
 
 def main(rep, tier, seed):
     cases = [dict(kind='construct', name=n, chans=[list(x) for x in ch], valid=v)
-             for n, ch, v in carrier_lists(deep=tier == 'thorough')]
+             for n, ch, v in carrier_lists(deep=True, deeper=tier == 'thorough')]
     n1 = len(cases)
-    variants = range(6) if tier == 'thorough' else [seed % 6, (seed + 3) % 6]
+    variants = range(6)
     for net in NETS:
         cases.append(dict(kind='path', net=net, spectrum='uniform', variant=0))
         for v in variants:
-            cases.append(dict(kind='path', net=net, spectrum='edges', variant=v, orders='many' if tier == 'thorough' else 'few'))
+            cases.append(dict(kind='path', net=net, spectrum='edges', variant=v, orders='many'))
     results, stats = engine.run_pool('checks.c07', cases, horizon=600, chunksize=1)
     rep.absorb(results)
-    rep.cov['bound'] = (f'{n1} carrier lists (all typings of 3 touching channels, every one-step overlap, baud>slot variants, '
-                        f'5-channel lists) x all permutations x 2 constructors; {len(NETS)} networks x every simple path x '
+    rep.cov['bound'] = (f'{n1} carrier lists (all typings of 3 and 4 touching channels, every one-step overlap, baud>slot variants, '
+                        f'5-channel lists' + ('; all typings of 5 touching channels of 3 types, one-step overlaps of 5' if tier == 'thorough' else '')
+                        + f') x all permutations x 2 constructors; {len(NETS)} networks x every simple path x '
                         f'{len(list(variants))} edge-spectrum variants (+ uniform grid; + a second spectrum with another band split on the same '
                         f'element objects; + one request object propagated in both directions where the directions differ) x '
-                        + ('4 carrier orders' if tier == 'quick' else 'reversed, interleaved, every rotation and every adjacent transposition '
-                           'of the carrier list; + all typings of 4 touching channels / every one-step overlap of 4 in part 1'))
+                        'reversed, interleaved, every rotation and every adjacent transposition of the carrier list')
     rep.cov['space_size'] = len(cases)
     rep.cov['exhaustive'] = not stats['budget_hit'] and len(results) == len(cases)
     rep.cov['rule'] = ('part 1: SpectrumError for every order of an invalid list, identical SpectralInformation for every order '
